@@ -113,6 +113,8 @@ def run(tier, replay=None):
             else:
                 b = b[:i]
             add("".join(b), "mutated programs")
+    for ptxt in frontlib.long_programs(seed, 6 if tier == "quick" else 60):
+        add(ptxt, "long programs (70 to 1500 tokens in one parse)", nolex=True)
     res = frontlib.run_front(cases)
     fam_counts = {}
     nontriv = set()
